@@ -206,7 +206,7 @@ package lang
 //@   modifies nothing
 
 // DESIGN.md 3.4 rows 2-6 (row 1, unset operands, is decided by the caller before Compare is reached).
-//@ func Value.Compare [C05]
+//@ func Value.Compare [C05,C15,C19]
 //@   requires v != nil && b != nil && !$faulted
 //@   updates $faulted
 //@   ensures[C11] fault-latched: $faulted <==> err != nil
@@ -446,7 +446,9 @@ package lang
 //@ typeinv StatementForIn wfForIn
 //@ spec func wfRule(x Rule) bool = x.Body != nil && x.Kind <= PatternRule
 //@ typeinv Rule wfRule
-//@ spec func wfFrame(f stackFrame) bool = f.locals != nil && f.depth >= 0
+// C20: the depth field really counts the frames below, and never exceeds the limit -- so no chain of
+// frames is longer than callDepthLimit+1, however the frames were created (calls, match bodies).
+//@ spec func wfFrame(f stackFrame) bool = f.locals != nil && f.depth >= 0 && f.depth <= callDepthLimit && (f.parent != nil ==> f.depth == f.parent.depth + 1)
 //@ typeinv stackFrame wfFrame
 
 // What evaluating program text may change in the heap that existed before: the fields of any value
@@ -478,7 +480,7 @@ package lang
 //@   ensures[C12] message: result.Message == msg
 //@   modifies nothing
 
-//@ func Evaluator.evalExpr [C01,C07,C08,C11,C13,C15,C19]
+//@ func Evaluator.evalExpr [C01,C07,C08,C11,C13,C15,C19,C20]
 //@   modifies valueHeap, e.stackTop, e.returnVal
 //@   requires evOK(e) && expr != nil && !$faulted
 //@   updates $faulted, $out
@@ -665,19 +667,23 @@ package lang
 //@   loop 0 invariant[C08] parameters-bound-by-position: forall k int :: 0 <= k && k <= rangeindex ==> has($frame.locals, fn.Value.Fn.Args[k]) && fresh($frame.locals[fn.Value.Fn.Args[k]])
 
 //@ ghost $eqSeen bool
+//@ ghost $failMark int
 //@ ghost $lit *Cell
 //@ func Evaluator.evalCaseMatch [C01,C08,C11,C19]
 //@   modifies valueHeap, e.stackTop, e.returnVal
 //@   requires evOK(e) && value != nil && !$faulted
 //@   init $eqSeen = false
+//@   init $failMark = 0
+//@   after Evaluator.evalCaseMatch: $failMark = (ret0 ? $failMark : $alloc)
+//@   exit[C08,C19] bindings-come-from-the-matching-alternative-only: err == nil && result0 && result1 != nil ==> newerThan(result1, $failMark)
 //@   after Evaluator.evalExpr: $lit = ret0
 //@   after Value.Equals: $eqSeen = $eqSeen || (ret1 == nil && ret0)
 //@   assert[C19] literal-is-compared-with-the-subject-by-equality: arg0 == &value.Value && arg1 == &$lit.Value @ Value.Equals
 //@   ensures[C19] equal-literal-matches: err == nil && $eqSeen ==> result0
 //@   exit[C19] every-alternative-tried-before-failing: err == nil && !result0 ==> rangeindex#0 >= len(exprs)
-//@   loop 0 invariant protocol: evInv(e, old(e.stackTop)) && !$eqSeen
-//@   loop 1 invariant protocol: evInv(e, old(e.stackTop)) && !$eqSeen
-//@   loop 2 invariant protocol: evInv(e, old(e.stackTop)) && !$eqSeen
+//@   loop 0 invariant protocol: evInv(e, old(e.stackTop)) && !$eqSeen && $failMark <= $alloc
+//@   loop 1 invariant protocol: evInv(e, old(e.stackTop)) && !$eqSeen && $failMark <= $alloc && newerThan(bindings, $failMark)
+//@   loop 2 invariant protocol: evInv(e, old(e.stackTop)) && !$eqSeen && $failMark <= $alloc && newerThan(bindings, $failMark)
 //@   updates $faulted, $out
 //@   ensures[C01] errkind: err == nil || isRT(err) || isFlow(err)
 //@   ensures[C08] stack-restored: stackKept(e, old(e.stackTop), err)
